@@ -413,7 +413,7 @@ pub fn run(ctx: Ctx) -> i32 {
         judge(&ctx, &c, &res[0]);
         return ctx.finish(json!({"states":1,"transitions":1,"traces_validated_against_impl":1,"samples":[case]}), &[], false);
     }
-    let (la, lb) = if ctx.quick() { (3, 2) } else { (4, 3) };
+    let (la, lb) = if ctx.quick() { (3, 2) } else { (5, 3) };
     let mut cases: Vec<Value> = vec![];
     for ep in 0..EPS.len() {
         // (A)
